@@ -524,7 +524,7 @@ impl Gen {
         let id = self.some_id(o, true);
         let bad = matches!(self.mode, Mode::BadInput) && self.rng.chance(1, 3);
         // flipper: ask for exactly what an existing bucket holds, so that its owner can buy at once
-        let flip_rate = if matches!(self.mode, Mode::Flipper) { 2 } else { 5 };
+        let flip_rate = if matches!(self.mode, Mode::Flipper | Mode::CycleHeavy) { 2 } else { 5 };
         let ask = if bad {
             self.bad_ask(o, names, &who)
         } else if !o.buckets.is_empty() && self.rng.chance(1, flip_rate) {
@@ -1119,6 +1119,25 @@ impl Gen {
                     // start near the week mark
                     let nanos = self.rng.below(1_000_000_000);
                     self.script.push_back(Op::Advance { dt_ns: 604_795 * 1_000_000_000 + nanos, dblocks: 100_000 });
+                } else if matches!(self.mode, Mode::CycleHeavy) && self.rng.chance(1, 2) {
+                    // a fee is recorded, the denomination switches, then the proceeds bucket buys again
+                    let m = &names.market;
+                    let a = self.amount().max(200);
+                    let b = self.amount().max(200);
+                    let ask = AskSpec { native: vec![("ujunox".into(), a), ("uusdcx".into(), b)], ..Default::default() };
+                    self.script.push_back(Op::tx("user0", m, msgs::create_listing(1, &ask, None), vec![fund("uatom", 77)]));
+                    self.script.push_back(Op::tx("user0", m, msgs::finalize(1, 3600), vec![]));
+                    self.script.push_back(Op::tx("user1", m, msgs::create_bucket(1), vec![fund("ujunox", a), fund("uusdcx", b)]));
+                    self.script.push_back(Op::tx("user1", m, msgs::buy(1, 1), vec![]));
+                    self.script.push_back(Op::Advance { dt_ns: 8 * 86400 * 1_000_000_000 + self.rng.below(1_000_000_000), dblocks: 100_000 });
+                    self.script.push_back(Op::tx("user2", m, msgs::fee_cycle(), vec![]));
+                    // JUNO is in force at instantiation: the first sale took 0.5 % of the ujunox
+                    let a2 = a - (a / 1000 * 5 + (a % 1000) * 5 / 1000);
+                    let ask2 = AskSpec { native: vec![("uusdcx".into(), b), ("ujunox".into(), a2)], ..Default::default() };
+                    self.script.push_back(Op::tx("user2", m, msgs::create_listing(2, &ask2, None), vec![fund("uatom", 33)]));
+                    self.script.push_back(Op::tx("user2", m, msgs::finalize(2, 3600), vec![]));
+                    self.script.push_back(Op::tx("user0", m, msgs::buy(2, 1), vec![]));
+                    self.next_id_hint = 3;
                 }
             }
             Mode::BadInput => {}
